@@ -4,7 +4,7 @@ import (
 	"fmt"
 	"net/url"
 	"os"
-		"strings"
+	"strings"
 	"time"
 
 	"verifharness/codecgen"
